@@ -100,8 +100,8 @@ theorem Inv.wait {s : State} (hI : Inv s) {h f v : Nat} (hr : s.fr h = .running)
     · inv_simp; grind [updA, upd]
   case placed => inv_auto
   case freshHolder => inv_auto
-  case scanL0 => inv_auto
-  case unlockL0 => inv_auto
+  case scanL0 => unfold ScanL0 at *; inv_auto
+  case unlockL0 => unfold ScanL0 UnlockL0 at *; inv_auto
   case oScanOk => inv_auto
   case oNoneOk => inv_auto
   case aUnlockOk => inv_auto
@@ -166,8 +166,8 @@ theorem Inv.wFree {s : State} (hI : Inv s) {h n : Nat} (hp : s.pc (.fr h) = .wFr
     · inv_simp; grind [updA, upd]
   case placed => inv_auto
   case freshHolder => inv_auto
-  case scanL0 => inv_auto
-  case unlockL0 => inv_auto
+  case scanL0 => unfold ScanL0 at *; inv_auto
+  case unlockL0 => unfold ScanL0 UnlockL0 at *; inv_auto
   case oScanOk => inv_auto
   case oNoneOk => inv_auto
   case aUnlockOk => inv_auto
